@@ -624,6 +624,49 @@ theorem issuer_network_revocation_accepted (K : KeyEnv) (n : Node) (id kid sig p
 example : issuerRevokeRoute false false exCred "did:a#1" "did:a#k" "s" 1 = .statusList exEntry := by decide
 example : issuerRevokeRoute true false exCred "did:nuts:B#1" "did:nuts:B#k" "pkB|did:nuts:B#1" 5 = .network exRevByB := by decide
 
+/-! ### 9. several status entries; store read faults -/
+
+/-- `each_entry_judged_by_its_own_list`: on the node that manages the lists, a credential with any number of status entries
+    (different lists, different issuers, any order, irrelevant entries in between) is answered revoked exactly when some
+    relevant entry's position is revoked in the list THAT entry names; otherwise the status check passes. Nothing is
+    downloaded. (`status_only_from_named_list` gives the "only from its own list" direction on every node.) -/
+theorem each_entry_judged_by_its_own_list (E : Env) (hE : EnvOK E) (i : Bool) (w : World) (hw : WInv E w) (c : Cred) (sts : List StatusEntry)
+    (hc : c.statuses = some sts) (hl : LocalEntries E (w.get i) sts) :
+    ((statusVerify E i w c).1 = .revoked ↔
+      ∃ st j, st ∈ sts ∧ st.relevant = true ∧ st.idx = some ((j : Nat) : Int) ∧ j ∈ (w.get i).revsOf st.list) ∧
+    ((statusVerify E i w c).1 = .revoked ∨ (statusVerify E i w c).1 = .ok) := by
+  simp only [statusVerify, hc]
+  exact verifyStatuses_local_exact hE i sts hw hl
+
+/-- non-vacuity: two entries naming different lists of node 0; only the second one's position is revoked -/
+example :
+    let w := run exEnv exK exWorld [.entryTx false "did:a" none, .entryTx false "did:b" none, .revoke false "x" exEntry];
+    (statusVerify exEnv false w (Cred.mk (some "did:a#2") "did:a"
+        (some [StatusEntry.mk "StatusList2021Entry" "revocation" (.sl "https://n0" "did:b" 1) (some 0), exEntry]))).1 = .revoked ∧
+    (statusVerify exEnv false w (Cred.mk (some "did:a#3") "did:a"
+        (some [StatusEntry.mk "StatusList2021Entry" "revocation" (.sl "https://n0" "did:b" 1) (some 0)]))).1 = .ok := by decide
+
+/-- `store_read_fault_never_accepts`: while the revocation store cannot be read, `Verify` of a credential (it has an id:
+    both validators demand one) answers the store's error — never "valid" —, whether or not a revocation is stored -/
+theorem store_read_fault_never_accepts (E : Env) (i : Bool) (w : World) (c : Cred) (nutsType : Bool) :
+    (verifyFullF E i w c nutsType true).1 ≠ .ok := by
+  unfold verifyFullF verifyWithStore validateNutsId
+  cases hid : c.id with
+  | none => cases nutsType <;> simp
+  | some id =>
+    cases nutsType
+    · simp
+    · by_cases hp : prefixOf id = c.issuer <;> simp [hp]
+
+set_option maxRecDepth 1000000 in
+/-- every statement of `(cs *StatusList2021) Verify` and of `verifier.Verify`: the list is fetched inside the loop for every
+    entry (`sList,err := cs.statusList(slEntry.StatusListCredential)`), an error of `IsRevoked` is returned, and the
+    soft-fail block (`errors.Is(err,types.ErrRevoked)` else log) follows `v.credentialStatus.Verify` only -/
+theorem fact_verify_soft_fail_scope :
+    Facts.C11.statusVerifyStmts = ["if credentialToVerify.CredentialStatus == nil", "return nil", "statuses,err := credentialToVerify.CredentialStatuses()", "if err != nil", "return err", "range statuses", "if status.Type != StatusList2021EntryType", "continue", "if err != nil", "err = json.Unmarshal(status.Raw(),&slEntry)", "return err", "if slEntry.StatusPurpose != \"revocation\"", "continue", "sList,err := cs.statusList(slEntry.StatusListCredential)", "if err != nil", "return fmt.Errorf(\"status list: %w\",err)", "if sList.StatusPurpose != slEntry.StatusPurpose", "return fmt.Errorf(\"StatusList2021Credential.credentialSubject.statusPuspose='%s' does not match vc.credentialStatus.statusPurpose='%s'\",sList.StatusPurpose,slEntry.StatusPurpose)", "index,err := strconv.Atoi(slEntry.StatusListIndex)", "if err != nil", "return err", "revoked,err := sList.Bitstring.bit(index)", "if err != nil", "return err", "if revoked", "return errRevoked", "return nil"] ∧
+    Facts.C11.verifierVerifyStmts = ["validator := credential.FindValidator(credentialToVerify)", "if err != nil", "err := validator.Validate(credentialToVerify)", "return err", "if len(credentialToVerify.Type) > 2", "return errors.New(\"verifiable credential must list at most 2 types\")", "if credentialToVerify.ID != nil", "revoked,err := v.IsRevoked(*credentialToVerify.ID)", "if err != nil", "return err", "if revoked", "return types.ErrRevoked", "err := v.credentialStatus.Verify(credentialToVerify)", "if err != nil", "if errors.Is(err,types.ErrRevoked)", "return err", "bs,_ := json.Marshal(credentialToVerify)", "if !allowUntrusted", "range credentialToVerify.Type", "if t.String() == verifiableCredentialType", "continue", "if !v.trustConfig.IsTrusted(t,credentialToVerify.Issuer)", "return types.ErrUntrusted", "validAtNotNil := time.Now()", "if validAt != nil", "validAtNotNil = *validAt", "if !credentialToVerify.ValidAt(validAtNotNil,maxSkew)", "return types.ErrCredentialNotValidAtTime", "if checkSignature", "issuerDID,err := did.ParseDID(credentialToVerify.Issuer.String())", "if err != nil", "return fmt.Errorf(\"could not validate issuer: %w\",err)", "metadata := resolver.ResolveMetadata{ResolveTime:validAt,AllowDeactivated:false}", "rawJwt := credentialToVerify.Raw()", "if rawJwt != \"\"", "headers,err := ExtractProtectedHeaders(rawJwt)", "if err != nil", "return err", "metadata.JwtProtectedHeaders = headers", "_,_,err = v.didResolver.Resolve(*issuerDID,&metadata)", "if err != nil", "return fmt.Errorf(\"could not validate issuer: %w\",err)", "return v.VerifySignature(credentialToVerify,validAt)", "return nil"] := by
+  decide
+
 /-! ### regenerated facts the model relies on -/
 
 theorem fact_bitstring_arithmetic :
